@@ -229,13 +229,17 @@ Definition mg_next (g : movegen) : option move * movegen :=
        set_entry g i e' (g_promo g) (if none rest then S i else i))
   end.
 
-(* drain: all moves the iterator yields from here (at most 18*64*4 steps) *)
+(* drain: all moves the iterator yields from here.  The Rust loop `for m in gen` runs until next() returns
+   None; the model's fuel is an upper bound on the number of moves still owed (four per destination bit of
+   every entry, plus one step for the final None), so it never runs out: IterFacts.visible_le_bound. *)
+Definition drain_bound (g : movegen) : nat :=
+  S (fold_right (fun e a => (4 * N.to_nat (count (e_moves e)) + a)%nat) O (g_moves g)).
 Fixpoint mg_drain_fuel (fuel : nat) (g : movegen) : list move :=
   match fuel with
   | O => []
   | S f => match mg_next g with (Some m, g') => m :: mg_drain_fuel f g' | (None, _) => [] end
   end.
-Definition mg_drain (g : movegen) : list move := mg_drain_fuel 400 g.
+Definition mg_drain (g : movegen) : list move := mg_drain_fuel (drain_bound g) g.
 
 (* what board.legals() yields, in order *)
 Definition legals (b : board) : list move := mg_drain (legals_gen b).
